@@ -78,8 +78,8 @@ type binding struct {
 	okOjg    bool
 	okParent *binding
 	okRoot   int
-	kconst   string   // bKind: the constant's name, or ""
-	symVar   string   // bTypeOf / bKind / bKeys: Coq name of the variable it was taken from
+	kconst   string // bKind: the constant's name, or ""
+	symVar   string // bTypeOf / bKind / bKeys: Coq name of the variable it was taken from
 	symOjg   bool
 	symFrom  *binding // that variable
 	symName  string   // its Go name
